@@ -455,6 +455,12 @@ structure CallObs (γ : Type) where
   extBefore : List (List Id)           -- caller-held arrays
   extAfter : List (List Id)
   extAfterPoke : List (List Id)
+  /-- group metadata (both axes, rendered as text) of every table that was alive before the call.  The heap
+  model has no group metadata (no operation of the property's list carries it over to a result), so the
+  model's own observations hold empty entries; on the real code the entries are what `group_metadata` says. -/
+  gBefore : List (List String)
+  gAfter : List (List String)
+  gAfterPoke : List (List String)
 
 variable [DecidableEq γ]
 
@@ -466,6 +472,8 @@ def holdsV (c : CallObs γ) : Verdict :=
         ((List.range c.before.length).all (fun i => i == c.recv || c.after[i]? == c.before[i]?)
           && c.after.length == c.before.length),
       chk "inplace.caller-arrays-unchanged" (c.extAfter == c.extBefore),
+      chk "inplace.others-group-metadata-unchanged"
+        ((List.range c.gBefore.length).all (fun i => i == c.recv || c.gAfter[i]? == c.gBefore[i]?)),
       chk "inplace.returns-receiver" (c.raised || c.resultIds == [c.recv]),
       chk "inplace.result-is-receiver-state" (c.raised || c.after[c.recv]? == c.results.head?),
       chk "inplace.equals-noninplace" (c.raised || (c.reference.isSome && c.results.head? == c.reference))]
@@ -476,7 +484,9 @@ def holdsV (c : CallObs γ) : Verdict :=
       chk "new.result-is-new-object" (c.resultIds.all (fun i => decide (c.before.length ≤ i))),
       chk "new.result-count" (c.raised || (c.resultIds.length == c.results.length)),
       chk "new.poke-does-not-show-through" (c.afterPoke == c.before),
-      chk "new.poke-caller-arrays-unchanged" (c.extAfterPoke == c.extBefore)]
+      chk "new.poke-caller-arrays-unchanged" (c.extAfterPoke == c.extBefore),
+      chk "new.inputs-group-metadata-unchanged" (c.gAfter == c.gBefore),
+      chk "new.poke-group-metadata-does-not-show-through" (c.gAfterPoke == c.gBefore)]
 
 def holds (c : CallObs γ) : Bool := (holdsV c).isNone
 
@@ -494,7 +504,8 @@ def obsOp (h : Heap γ) (op : Op γ) (poke : List (Body γ)) : CallObs γ × Hea
     ({ inplace := true, raised := false, recv := r, before := snaps h, after := (snaps h1).take n,
        resultIds := [r], results := (h1.abs r).toList,
        reference := (stepOp h (Op.copyThen r bs)).abs n,
-       afterPoke := [], extBefore := h.ids, extAfter := h1.ids.take h.ids.length, extAfterPoke := [] }, h1)
+       afterPoke := [], extBefore := h.ids, extAfter := h1.ids.take h.ids.length, extAfterPoke := [],
+       gBefore := List.replicate n [], gAfter := List.replicate n [], gAfterPoke := [] }, h1)
   | _ =>
     let h2 := stepOp h1 (.inplace n poke)
     ({ inplace := false, raised := false, recv := 0, before := snaps h, after := (snaps h1).take n,
@@ -502,7 +513,8 @@ def obsOp (h : Heap γ) (op : Op γ) (poke : List (Body γ)) : CallObs γ × Hea
        results := (snaps h1).drop n,
        reference := none,
        afterPoke := (snaps h2).take n, extBefore := h.ids, extAfter := h1.ids.take h.ids.length,
-       extAfterPoke := h2.ids.take h.ids.length }, h2)
+       extAfterPoke := h2.ids.take h.ids.length,
+       gBefore := List.replicate n [], gAfter := List.replicate n [], gAfterPoke := List.replicate n [] }, h2)
 
 def runObs (h : Heap γ) : List (Op γ × List (Body γ)) → List (CallObs γ)
   | [] => []
@@ -569,6 +581,7 @@ structure CallJ where
   after : List (Content G)
   ext : List (List String)     -- everything the caller holds, in creation order
   extIdIdx : List Nat          -- which of them are ID arrays
+  gmd : List (List String)     -- group metadata of every live table after the call
   facts : Json
   poke : Nat
 
@@ -581,6 +594,7 @@ def asCallJ (j : Json) : R CallJ := do
          resultContents := (← listF asContent j "result_contents"),
          ref := (← optF asContent j "ref"), after := (← listF asContent j "after"),
          ext := (← listF (asList asStr) j "ext"), extIdIdx := (← listF asNat j "ext_id_idx"),
+         gmd := (← listF (asList asStr) j "gmd"),
          facts := (← fld j "facts"), poke := (← natFD j "poke" 0) }
 
 def filterBody (cur : Content G) (ax : Axis) (newIds : List Id) (gOverride : Option G) : Body G :=
@@ -616,10 +630,13 @@ def bodiesOf (cur : Content G) (name : String) (a : Json) : R (List (Body G)) :=
     let axes ← listF asAxis a "axes"
     let keys ← optF (asList asStr) a "keys"
     pure (axes.map (fun ax => .delMd ax (keys.map mdErase)))
+  -- group metadata is not part of the heap model: nothing the model tracks changes
+  | "add_group_metadata" => pure []
   | s => .error s!"no bodies for {s}"
 
 def inplaceNames : List String :=
-  ["filter", "transform", "norm", "pa", "rankdata", "remove_empty", "update_ids", "add_metadata", "del_metadata"]
+  ["filter", "transform", "norm", "pa", "rankdata", "remove_empty", "update_ids", "add_metadata", "del_metadata",
+   "add_group_metadata"]
 
 /-- the model's operations for one call of the real API -/
 def mkOps (h : Heap G) (ext : List Nat) (c : CallJ) : R (List (Op G)) := do
@@ -787,6 +804,7 @@ def compareFacts (h0 h1 : Heap G) (ext : List Nat) (c : CallJ) : R (Option Strin
   let dictShare ← listF asPairN f "dict_share"
   let dictDup ← listF asNat f "dict_dup"
   let kept ← listF asNat f "kept"
+  let lookupShare ← listF asPairN f "lookup_share"
   let modelContents := snaps h1
   if modelContents.length != c.after.length then
     return some s!"live tables: model {modelContents.length} vs {c.after.length}"
@@ -803,6 +821,9 @@ def compareFacts (h0 h1 : Heap G) (ext : List Nat) (c : CallJ) : R (Option Strin
   if !sameSet (symS (predIdShare h1 ext idUnknown)) (symS idShare) then
     return some s!"ID array sharing: model {predIdShare h1 ext idUnknown} vs {idShare}"
   if !sameSet (predDictShare h1) dictShare then return some s!"dict sharing: model {predDictShare h1} vs {dictShare}"
+  -- every constructor call indexes its IDs anew or is handed a copy (`_index_ids`, `.copy()` in filter / partition):
+  -- no two tables ever resolve IDs through the same lookup object
+  if !lookupShare.isEmpty then return some s!"ID lookup or group-metadata dict objects shared between tables {lookupShare} (the model: never)"
   if !sameSet (predDictDup h1) dictDup then return some s!"duplicate dicts: model {predDictDup h1} vs {dictDup}"
   if !c.raised && !sameSet (predKept h0 h1) kept then return some s!"buffers kept: model {predKept h0 h1} vs {kept}"
   return none
@@ -812,6 +833,7 @@ structure RunState where
   ext : List Nat
   prevAfter : List (Content G)
   prevExt : List (List Id)
+  prevG : List (List String)
   k : Nat
   verdict : Verdict
   diff : Option String
@@ -837,14 +859,16 @@ def stepCall (calls : Array CallJ) (st : RunState) (c : CallJ) : R RunState := d
       after := c.after.take n, resultIds := c.results, results := c.resultContents, reference := c.ref,
       afterPoke := match later with | some l => l.after.take n | none => [],
       extBefore := st.prevExt, extAfter := (extAll c).take st.prevExt.length,
-      extAfterPoke := match later with | some l => (extAll l).take st.prevExt.length | none => [] }
+      extAfterPoke := match later with | some l => (extAll l).take st.prevExt.length | none => [],
+      gBefore := st.prevG, gAfter := c.gmd.take n,
+      gAfterPoke := match later with | some l => l.gmd.take n | none => [] }
   let v := (holdsV obs).map (fun cl => s!"{st.k}:{c.name}:{cl}")
   let d ← compareFacts st.h h1 ext1 c
   let d := d.map (fun x => s!"{st.k}:{c.name}: {x}")
   -- the model's own observation of the same call satisfies the predicate (cf. model_holds)
   let mh := (ops.foldl (fun (acc : Bool × Heap G) op =>
     (acc.1 && (holds (obsOp acc.2 op []).1 || !(okCall acc.2 op)), stepOp acc.2 op)) (true, st.h)).1
-  pure { h := h1, ext := ext1, prevAfter := c.after, prevExt := extAll c, k := st.k + 1,
+  pure { h := h1, ext := ext1, prevAfter := c.after, prevExt := extAll c, prevG := c.gmd, k := st.k + 1,
          verdict := st.verdict.and v, diff := match st.diff with | some x => some x | none => d,
          modelHolds := st.modelHolds && mh }
 
@@ -852,7 +876,7 @@ def stepCall (calls : Array CallJ) (st : RunState) (c : CallJ) : R RunState := d
 def handle (req : Json) : R Json := do
   let calls ← listF asCallJ req "calls"
   let arr := calls.toArray
-  let st0 : RunState := { h := Heap.empty, ext := [], prevAfter := [], prevExt := [], k := 0,
+  let st0 : RunState := { h := Heap.empty, ext := [], prevAfter := [], prevExt := [], prevG := [], k := 0,
                           verdict := none, diff := none, modelHolds := true }
   let st ← calls.foldlM (stepCall arr) st0
   pure (Json.mkObj (verdictToJson st.verdict ++
